@@ -56,6 +56,13 @@ CLAIMED.update({
             "connection I/O runs only after a non-zero deadline was applied; the bufferer closes and signals before its timed wait; listener and connections are closed on stop; no Signal/close can run twice on a path. The numeric bound is not decided.", "§4 C18"),
 })
 
+CLAIMED.update({
+    "C16": ("static sibling cross-check (constructor panics ⊆ verifier checks over canonical argument provenance, delegation and enum obligations), panic reachability, nil-guard dominance, section coverage from struct types",
+            "For every configuration type (enumerated from the types having VerifyConfig) each check whose failure makes a constructor panic is performed by the verifier on the same configuration value, nested values are verified by delegation, "
+            "switch enumerations agree, no explicit panic is reachable from loading/verification (reviewed invariants aside), optional holders are nil-tested, every section and nested list is verified. "
+            "It does not decide that accepted configurations process records correctly, nor panics inside third-party libraries.", "§4 C16"),
+})
+
 NOT_YET = {}
 
 NOT_APPLICABLE = {
